@@ -2131,7 +2131,57 @@ theorem encodeIntoS_eq (san : Bool) (v : Val) (buf : Bytes) : encodeIntoS san v 
   encodeIntoS_eq_aux san v.depth v (Nat.le_refl _) buf
 
 theorem encode1_eq (v : Val) : encode1 v = encode2 v := by simp [encode1, encode2, encodeIntoS_eq]
-theorem encode3_eq (v : Val) : encode3 v = encode2 v := by simp [encode3, encode2, encodeIntoS_eq]
+theorem encode4_eq (v : Val) : encode4 v = encode2 v := by simp [encode4, encode2, encodeIntoS_eq]
+
+theorem encodeConnListS_eq (san : Bool) (a : List Val)
+    (h : ∀ v ∈ a, ∀ buf, encodeConnS san false v buf = buf ++ encode2S san v) :
+    ∀ init : Bytes, encodeConnListS san false a init = init ++ encode2ListS san a := by
+  induction a with
+  | nil => intro init; simp [encodeConnListS, encode2ListS]
+  | cons v vs ih =>
+    intro init
+    simp only [encodeConnListS, encode2ListS]
+    rw [h v (by simp), ih (fun x hx => h x (by simp [hx]))]
+    simp
+
+theorem encodeConnS_eq_aux (san : Bool) : ∀ (d : Nat) (v : Val), v.depth ≤ d → ∀ buf,
+    encodeConnS san false v buf = buf ++ encode2S san v := by
+  intro d
+  induction d with
+  | zero => intro v h; cases v <;> simp [Val.depth] at h
+  | succ d ih =>
+    intro v hd buf
+    cases v with
+    | array a =>
+      simp only [Val.depth] at hd
+      rw [encodeConnS, encode2S]
+      rw [encodeConnListS_eq san a (fun v hv b => ih v (by have := Val.depthList_mem a v hv; omega) b)]
+      simp [crlf]
+    | simple s => simp [encodeConnS, encode2S]
+    | error s => simp [encodeConnS, encode2S]
+    | int n => simp [encodeConnS, encode2S]
+    | nullBulk => simp [encodeConnS, encode2S]
+    | bulk b => simp [encodeConnS, encode2S]
+    | nullArray => simp [encodeConnS, encode2S]
+
+/-- the connection handler's encoder writes the bytes `RespParser::encode` writes -/
+theorem encode3_eq (v : Val) : encode3 v = encode2 v := by
+  unfold encode3 encode2
+  rw [encodeConnS_eq_aux true v.depth v (Nat.le_refl _) []]
+  simp
+
+theorem sanitize_append (a b : Bytes) : sanitize true (a ++ b) = sanitize true a ++ sanitize true b := by
+  simp [sanitize]
+
+/-- `encode_error_into(msg)` writes the error value whose text is `errText msg` -/
+theorem encodeErr_eq (msg : Bytes) : encodeErr msg = encode2 (.error (errText msg)) := by
+  unfold encodeErr errText encode2
+  split
+  · simp [encode2S]
+  · rw [encode2S, sanitize_append]
+    have : sanitize true [69, 82, 82, 32] = [69, 82, 82, 32] := by decide
+    rw [this]
+    simp
 
 /-! ### a value without CR / LF in its lines is what is on the wire -/
 
